@@ -28,9 +28,9 @@ def u1_stickiness(src, max_members, ntopics, max_parts, rounds):
             # w.r.t. generation 2 it is a new member, so nothing may move between the members of generation 2
             sr = A.stale_rejoin(src, parts, subs, res)
             if sr is not None:
-                absent, s2, r2, r3 = sr
-                A.check_validity(src, "sticky", parts, subs, r3, tag="stale re-join: ")
-                A.check_sticky(src, "plus", parts, s2, r2, subs, r3, set(), {absent}, tag="stale re-join: ")
+                absent, s2, r2, r3, s3 = sr
+                A.check_validity(src, "sticky", parts, s3, r3, tag="stale re-join: ")
+                A.check_sticky(src, "plus", parts, s2, r2, s3, r3, set(), {absent}, tag="stale re-join: ")
         subs, res = subs2, res2
         gen += 1
 
